@@ -109,12 +109,15 @@ def build_inv(self, old, p, param_list):
 
 
 def build_post(self, result, old):
-    """Every combination dictionary has exactly the declared names; no combination for an empty collection, one for
-    no parameters.  (That each value is the chosen item of its parameter, each combination once, first parameter
-    slowest, is decided by the bounded stand-in of replayers/batchw.py - see DESIGN 5/C14.)"""
+    """Every combination dictionary has exactly the declared names, each with a single value itself or an item of
+    that parameter's collection; no combination for an empty collection, one for no parameters.  (Each index
+    combination exactly once, first-declared parameter slowest: the assumed contract of itertools.product.)"""
     P = self._parameters
     return (is_fresh(result, old)
             and all(rec_has(result[i], k) for i in range(len(result)) for k in P)
+            and all((single(P[k]) and same(rec_get(result[i], k), P[k]))
+                    or (not single(P[k]) and index_of(items_of(P[k]), rec_get(result[i], k)) < len(items_of(P[k])))
+                    for i in range(len(result)) for k in P)
             and all(implies(rec_has(result[i], k), k in P) for i in range(len(result)) for k in all_names(P))
             and implies(len(P) == 0, len(result) == 1)
             and implies(any(not single(P[k]) and len(items_of(P[k])) == 0 for k in P), len(result) == 0)
